@@ -31,6 +31,7 @@ type Prog struct {
 	ByPath   map[string]*packages.Package // every package reachable, by path
 	SSA      *ssa.Program
 	Thorough bool
+	WholeCG  bool // thorough tier: every call-graph query uses the whole-program VTA graph (dependencies included)
 
 	LoadSecs, SSASecs float64
 
@@ -249,7 +250,7 @@ func (p *Prog) IsTestFunc(fn *ssa.Function) bool { return isTestFn(p, fn) }
 // CallGraph returns the VTA call graph; restricted to repository functions
 // unless whole is set (dependencies included).
 func (p *Prog) CallGraph(whole bool) *callgraph.Graph {
-	if whole {
+	if whole || p.WholeCG {
 		if p.cgWhole == nil {
 			all := p.AllFunctions()
 			p.cgWhole = vta.CallGraph(all, cha.CallGraph(p.SSA))
